@@ -41,8 +41,15 @@ type snapshot struct {
 }
 
 func init() {
+	// begin [hash]: a new history; every root of it is computed with the named pair hash (default sha)
 	registerExec("begin", func(st *State, a []string) string {
 		st.objs = map[string]interface{}{}
+		name := "sha"
+		if len(a) > 0 {
+			name = a[0]
+		}
+		useHash(name)
+		histHash = hashByName(name)
 		return "ok"
 	})
 	registerExec("mk", hMk)
@@ -81,6 +88,9 @@ func init() {
 
 // rset <h> x<bytes>: SetBacking on a byte-vector view (RootView accepts it and rewrites itself;
 // basic value views refuse).  The view is detached: no tree may change.
+// histHash: the pair hash of the current history (set by begin)
+var histHash tree.HashFn = tree.Hash
+
 func hRset(st *State, a []string) string {
 	hd := st.h(a[0])
 	var r tree.Root
@@ -247,7 +257,7 @@ func withUnhashed(st *State, f func() string) string {
 
 func preHash(st *State, el view.View) {
 	if !st.unhashed {
-		el.HashTreeRoot(tree.Hash) // the inserted value is hashed beforehand (C07 premise)
+		el.HashTreeRoot(histHash) // the inserted value is hashed beforehand (C07 premise)
 	}
 }
 
@@ -338,7 +348,7 @@ func hChg(st *State, a []string) string {
 
 func hObs(st *State, a []string) string {
 	hd := st.h(a[0])
-	root := hd.vw.HashTreeRoot(tree.Hash)
+	root := hd.vw.HashTreeRoot(histHash)
 	bs, err := serializeView(hd.vw)
 	if err != nil {
 		return "ok " + rootHex(root) + " ser-err"
@@ -458,11 +468,11 @@ func pureRoot(n tree.Node, seen map[*tree.PairNode]tree.Root) tree.Root {
 		if r, ok := seen[x]; ok {
 			return r
 		}
-		r := tree.Hash(pureRoot(x.LeftChild, seen), pureRoot(x.RightChild, seen))
+		r := histHash(pureRoot(x.LeftChild, seen), pureRoot(x.RightChild, seen))
 		seen[x] = r
 		return r
 	}
-	return n.MerkleRoot(tree.Hash)
+	return n.MerkleRoot(histHash)
 }
 
 func hMemo(st *State, a []string) string {
@@ -487,7 +497,7 @@ func hHcount(st *State, a []string) string {
 	calls := 0
 	counting := func(x tree.Root, y tree.Root) tree.Root {
 		calls++
-		return tree.Hash(x, y)
+		return histHash(x, y)
 	}
 	r1 := hd.vw.HashTreeRoot(counting)
 	c1 := calls
@@ -506,7 +516,7 @@ func hSum(st *State, a []string) string {
 	n := hd.vw.Backing()
 	for j := 0; j < k; j++ {
 		g, _ := strconv.ParseUint(a[2+j], 10, 64)
-		link, err := n.SummarizeInto(tree.Gindex64(g), tree.Hash)
+		link, err := n.SummarizeInto(tree.Gindex64(g), histHash)
 		if err != nil {
 			return "err"
 		}
@@ -704,7 +714,7 @@ func hAppd(st *State, a []string) string {
 		return "err"
 	}
 	el := typeDef(et).Default(nil)
-	el.HashTreeRoot(tree.Hash) // the inserted value is hashed beforehand (C07 premise)
+	el.HashTreeRoot(histHash) // the inserted value is hashed beforehand (C07 premise)
 	switch x := hd.vw.(type) {
 	case *view.BasicListView:
 		return errStr(x.Append(el.(view.BasicView)))
@@ -728,7 +738,7 @@ func hSetd(st *State, a []string) string {
 		}
 	}
 	el := typeDef(et).Default(nil)
-	el.HashTreeRoot(tree.Hash)
+	el.HashTreeRoot(histHash)
 	return errStr(setElem(hd, i, el))
 }
 
@@ -754,6 +764,9 @@ func hObsg(st *State, a []string) string {
 	hf, ok := st.objs["hasher:"].(tree.HashFn)
 	if !ok {
 		hf = tree.GetHashFn()
+		if currentHash != "sha" {
+			hf = histHash
+		}
 		st.objs["hasher:"] = hf
 	}
 	root := hd.vw.HashTreeRoot(hf)
